@@ -307,7 +307,9 @@ namespace verif
                     rec.splats.clear();
                     for (auto& s : req.splat())
                         rec.splats.push_back(s.as<std::string>());
-                    return Route::Result::Ok;
+                    // what a handler reports back (a handler that has answered 400 or 403 itself may well say
+                    // Failure) is the handler's business: the route matched and ran, nothing else may run
+                    return pid % 3 == 2 ? Route::Result::Failure : Route::Result::Ok;
                 };
                 unsigned door = unsigned(pid + int(written.size())) % 3;
                 if (door == 0)
